@@ -294,19 +294,46 @@ def run_lbfgsb(a):
     before = dict(opt._solver_kwargs)
     f0 = float(fg.evaluate(M0, X, mask, fh, None))
     outs = []
-    for rep in range(2):
+    # what LBFGSB.solve hands to scipy and gets back (scipy is the oracle of C13_lbfgsb_wrap)
+    seen = []
+    orig_scipy = optimizers.fmin_l_bfgs_b
+
+    def spy(func, x0, fprime=None, approx_grad=False, bounds=None, **kw):
+        rec = {"x0": np.array(x0, dtype=float).copy(), "bounds": list(bounds), "cb": kw.get("callback"),
+               "slot_during": opt._solver_kwargs.get("callback"), "none_passed": any(v is None for v in kw.values()),
+               "approx_grad": approx_grad, "fprime": fprime}
+        r = orig_scipy(func, x0, fprime=fprime, approx_grad=approx_grad, bounds=bounds, **kw)
+        rec["final_vector"], rec["final_f"] = np.array(r[0], dtype=float).copy(), float(r[1])
+        seen.append(rec)
+        return r
+    optimizers.fmin_l_bfgs_b = spy
+    wrap_ok = True
+    try:
+      for rep in range(2):
         init = M0.copy()
         res, info = opt.solve(init, X, fh, gh, lb, mask)
         f_end = float(fg.evaluate(res, X, mask, fh, None))
+        rec = seen[-1]
+        nvec = sum(a["shape"]) * a["R"]
+        wrap_ok = wrap_ok and bool(
+            len(rec["x0"]) == nvec and np.array_equal(rec["x0"], M0.tovec(False))
+            and rec["bounds"] == [(lb, np.inf)] * nvec
+            and isinstance(rec["cb"], optimizers.LBFGSB.Monitor) and rec["cb"].callback is user_cb
+            and rec["slot_during"] is rec["cb"] and not rec["none_passed"]
+            and rec["approx_grad"] is False and rec["fprime"] is None
+            and np.array_equal(res.tovec(False), rec["final_vector"]) and float(info["final_f"]) == rec["final_f"]
+            and len(seen) == rep + 1)
         outs.append({"final_f": _fr(info["final_f"]), "f_end": _fr(f_end),
                      "min_entry": min(float(np.min(f)) for f in res.factor_matrices),
                      "flat": [_fr(v) for f in res.factor_matrices for v in f.ravel(order="F")],
                      "init_unchanged": all(np.array_equal(x, y) for x, y in zip(init.factor_matrices, M0.factor_matrices)),
                      "shapes_ok": [f.shape for f in res.factor_matrices] == [f.shape for f in M0.factor_matrices]})
+    finally:
+        optimizers.fmin_l_bfgs_b = orig_scipy
     after = opt._solver_kwargs
     restored = after.get("callback") is user_cb and all(after[k] == before[k] or (after[k] is before[k]) for k in before if k not in ("callback", "pgtol"))
     return {"f0": _fr(f0), "outs": outs, "lb": (None if lb == -np.inf else lb), "callback_restored": bool(restored),
-            "callback_called": len(calls) > 0 if a["callback"] else None}
+            "callback_called": len(calls) > 0 if a["callback"] else None, "wrap_ok": bool(wrap_ok)}
 
 # --------------------------------------------------------------------------------------- brute-force oracle
 def _cell(shape, data, sub):
@@ -349,8 +376,9 @@ def oracle(op, a, o):
     if op in ("solve", "solve_trace"):
         ests = [Fraction(x) for x in o["ests"]]
         trace = [Fraction(x) for x in o["trace"]]
-        if op == "solve_trace" and trace != ests:
-            return f"trace has {len(trace)} values, the start plus {len(ests) - 1} completed epochs were estimated"
+        if trace != ests:
+            return (f"the reported trace has {len(trace)} values {[float(t) for t in trace]}; the start plus {len(ests) - 1} completed "
+                    f"epochs were estimated: {[float(e) for e in ests]}")
         best = min(ests)
         if not o["ret_cands"]:
             return "returned model is none of the models held at an epoch boundary"
@@ -370,6 +398,30 @@ def oracle(op, a, o):
             return "second solve on the same LBFGSB object differs from the first identical solve"
         if not o["callback_restored"]:
             return "the user's callback slot was not restored after the solve"
+        if not o.get("wrap_ok", True):
+            return "LBFGSB.solve: bounds / start vector / callback handed to scipy or the vector read back do not match the model"
+        return None
+    if op == "config":
+        c, size, nnz = o["conf"], o["size"], o["nnz"]
+        r = a["req"]
+        if c[0] == "bad":
+            return f"sampler configuration cannot be read back: {c[1]}"
+        if c[0] == "error":
+            return None
+        if r is None:          # defaults never ask for more than the tensor holds
+            if c[0] == "uniform" and not (0 <= c[1] <= size):
+                return f"default uniform sample count {c[1]} for a tensor with {size} entries"
+            if c[0] in ("stratified", "semistrat") and not (0 <= c[1] <= nnz and 0 <= c[2] <= size - nnz):
+                return f"default stratified counts ({c[1]} nonzeros, {c[2]} zeros) for a tensor with {nnz} nonzeros and {size - nnz} zeros"
+        elif isinstance(r, int):
+            if c[0] in ("uniform", "poisson") and c[1] != r:
+                return f"requested {r} samples, configured {c[1]}"
+            if c[0] in ("stratified", "semistrat") and (c[1], c[2]) != (r, r):
+                return f"requested {r} nonzero and {r} zero samples, configured {c[1:]}"
+        elif c[0] in ("stratified", "semistrat") and [c[1], c[2]] != list(r):
+            return f"requested StratifiedCount{tuple(r)}, configured {c[1:]}"
+        if (c[0] == "semistrat") != (len(o["crng"]) > 0) and not (c[0] == "semistrat" and c[1] == 0):
+            return f"correction range {o['crng']} for a {c[0]} sampler"
         return None
     if op == "reuse":
         for k, (r, f) in enumerate(zip(o["reused"], o["fresh"])):
@@ -380,13 +432,6 @@ def oracle(op, a, o):
 
 
 # --------------------------------------------------------------------------------------- witnesses of the findings
-def _w_a35():
-    a = rand_witness_problem()
-    a.update({"opt": "sgd", "rate": 0.01, "decay": 0.1, "max_fails": 1, "epoch_iters": 2, "max_iters": 3, "tol": None})
-    o = run_solve(a)
-    if len(o["trace"]) != len(o["ests"]):
-        return f"3 epochs completed, f_est_trace has {len(o['trace'])} values instead of 4 (the last epoch's value is dropped)"
-    return None
 
 
 def rand_witness_problem():
@@ -394,29 +439,6 @@ def rand_witness_problem():
             "obj": "gaussian", "seed": 7, "sparse": False, "fs": 6, "gs": 3}
 
 
-def _w_a36(kind):
-    def w():
-        p = rand_witness_problem()
-        a = {"opt": kind, "probs": [p, dict(p)], "rate": 0.125, "decay": 0.5, "max_fails": 1, "epoch_iters": 2, "max_iters": 2, "tol": None}
-        o = run_reuse(a)
-        if o["reused"][1] != o["fresh"][1]:
-            return f"second {kind} solve on the same object differs from the identical solve on a fresh object"
-        return None
-    return w
-
-
-def _w_a37():
-    o = run_uniform({"shape": [2, 3], "data": [1, 2, 3, 4, 5, 6], "n": 1, "seed": 0, "force": None})
-    if o["vals_shape"] != [1]:
-        return f"uniform(samples=1): values have shape {tuple(o['vals_shape'])}, weights shape (1,)"
-    return None
-
-
-def _w_a48():
-    o = run_uniform({"shape": [2, 3], "data": [1, 2, 3, 4, 5, 6], "n": 2, "seed": 0, "force": "zero"})
-    if any(x < 0 for r in o["subs"] for x in r):
-        return f"draw u = 0.0 gives subscripts {o['subs']}"
-    return None
 
 
 def _w_a47():
@@ -437,10 +459,6 @@ def _w_short():
     return None
 
 
-def _w_semi0():
-    a = {"shape": [2, 2], "subs": [[0, 0]], "vals": [1], "cn": 0, "cz": 2, "seed": 3, "force": None}
-    o = run_stratified(a, semi=True)
-    return f"semistrat(num_nonzeros=0) raises {o['exc']}" if "exc" in o else None
 
 
 def _w_empty():
@@ -449,9 +467,128 @@ def _w_empty():
     return f"stratified sampling of an all-zero sptensor raises {o['exc']}" if "exc" in o else None
 
 
-def _w_a36_both():
-    return _w_a36("adam")() or _w_a36("adagrad")()
 
 
-WITNESSES = {"A-35": _w_a35, "A-36": _w_a36_both, "C13-S3": _w_empty, "A-37": _w_a37, "A-47": _w_a47,
-             "A-48": _w_a48, "C13-S1": _w_short, "C13-S2": _w_semi0}
+# only the OPEN findings are replayed as witnesses; the inputs of the repaired ones (A-35, A-36, A-37, A-48, C13-S2) are fixed
+# regression cases in c13.gen_cases
+WITNESSES = {"C13-S3": _w_empty, "A-47": _w_a47, "C13-S1": _w_short}
+
+
+# --------------------------------------------------------------------------------------- GCPSampler configuration table
+_KINDS = [None, "uniform", "stratified", "semistratified"]
+
+
+def config_cases(rng, big):
+    from vcheck import Case
+    cases = []
+    tensors = [(False, [2, 3], 3), (True, [2, 3], 5), (True, [2, 3], 0), (False, [15, 10, 10], 1500), (True, [1000, 1000, 1000], 1500),
+               (True, [1000, 1000, 1000], 120000), (True, [40, 50], 2000), (False, [120, 100, 100], 7)]
+    if big:
+        tensors += [(True, [1000, 1000, 1000], 250000), (False, [300, 200, 200], 12000000), (True, [700, 30], 20990)]
+    reqs = [None, 4, [2, 3], [0, 1]]
+    for (sparse, shape, nnz) in tensors:
+        for mi in ([1000, 7] if not big else [1000, 7, 1, 3]):
+            for side in ("f", "g"):
+                for kind in _KINDS:
+                    for req in reqs:
+                        cases.append(Case("config", {"sparse": sparse, "shape": shape, "nnz": nnz, "max_iters": mi, "side": side,
+                                                     "kind": kind, "req": req}, True))
+    # max_iters = 0 divides by zero in the gradient defaults
+    cases.append(Case("config", {"sparse": True, "shape": [2, 3], "nnz": 5, "max_iters": 0, "side": "g", "kind": None, "req": None}, True))
+    cases.append(Case("config", {"sparse": False, "shape": [2, 3], "nnz": 5, "max_iters": 0, "side": "g", "kind": None, "req": None}, True))
+    return cases
+
+
+_DATA_CACHE = {}
+
+
+def _config_data(np, ttb, sparse, shape, nnz):
+    key = (sparse, tuple(shape), nnz)
+    if key in _DATA_CACHE:
+        return _DATA_CACHE[key]
+    size = math.prod(shape)
+    step = max(1, size // max(nnz, 1))
+    lin = np.arange(nnz, dtype=np.int64) * step
+    if sparse:
+        if nnz:
+            subs = np.array(np.unravel_index(lin, tuple(shape), order="F")).T.copy()
+            X = ttb.sptensor(subs, np.ones((nnz, 1)), tuple(shape))
+        else:
+            X = ttb.sptensor(shape=tuple(shape))
+    else:
+        arr = np.zeros(size)
+        arr[lin] = 1.0
+        X = ttb.tensor(arr.reshape(tuple(shape), order="F"))
+    _DATA_CACHE.clear()
+    _DATA_CACHE[key] = X
+    return X
+
+
+def _read_conf(np, size, nnz, fn):
+    """the configured sampler, read back from the object"""
+    import functools
+    if isinstance(fn, functools.partial):
+        kw = fn.keywords
+        name = fn.func.__name__
+        if name == "uniform":
+            return ["uniform", int(kw["samples"])]
+        if name in ("stratified", "semistrat"):
+            if name == "stratified" and not (len(kw["nz_idx"]) == nnz and bool(np.all(np.diff(kw["nz_idx"]) >= 0))):
+                return ["bad", "nz_idx is not the sorted list of the nonzeros' linear indices"]
+            return [name, int(kw["num_nonzeros"]), int(kw["num_zeros"])]
+        return ["bad", name]
+    cells = dict(zip(fn.__code__.co_freevars, [c.cell_contents for c in fn.__closure__]))
+    en, ez = Fraction(float(cells["exp_nonzeros"])), Fraction(float(cells["exp_zeros"]))
+    n = round(en + ez)
+    ok = size > 0 and abs(en - Fraction(n * nnz, size)) < Fraction(1, 10 ** 6) and abs(ez - Fraction(n * (size - nnz), size)) < Fraction(1, 10 ** 6)
+    return ["poisson", n, size, nnz] if ok else ["bad", f"expected counts {float(en)}, {float(ez)}"]
+
+
+def run_config(a):
+    import numpy as np
+    import pyttb as ttb
+    from pyttb.gcp import samplers
+    X = _config_data(np, ttb, a["sparse"], a["shape"], a["nnz"])
+    size, nnz = int(np.prod(X.shape)), int(X.nnz)
+    K = {None: None, "uniform": samplers.Samplers.UNIFORM, "stratified": samplers.Samplers.STRATIFIED,
+         "semistratified": samplers.Samplers.SEMISTRATIFIED}
+
+    def req(r):
+        return r if not isinstance(r, list) else samplers.StratifiedCount(num_nonzeros=r[0], num_zeros=r[1])
+    # the other side of the constructor gets a request that is always accepted
+    safe_kind = samplers.Samplers.STRATIFIED if a["sparse"] else samplers.Samplers.UNIFORM
+    safe_req = samplers.StratifiedCount(num_nonzeros=1, num_zeros=1) if a["sparse"] else 2
+    kw = {"function_sampler": safe_kind, "function_samples": safe_req, "gradient_sampler": safe_kind, "gradient_samples": safe_req,
+          "max_iters": a["max_iters"]}
+    if a["side"] == "f":
+        kw["function_sampler"], kw["function_samples"] = K[a["kind"]], req(a["req"])
+    else:
+        kw["gradient_sampler"], kw["gradient_samples"] = K[a["kind"]], req(a["req"])
+    try:
+        g = samplers.GCPSampler(X, **kw)
+    except (ValueError, ZeroDivisionError) as ex:
+        return {"conf": ["error", type(ex).__name__], "size": size, "nnz": nnz}
+    fn = g._fsampler if a["side"] == "f" else g._gsampler
+    return {"conf": _read_conf(np, size, nnz, fn), "crng": [int(x) for x in g.crng], "size": size, "nnz": nnz}
+
+
+def config_check(a, o):
+    from vcheck import gz
+    c = o["conf"]
+    if c[0] == "bad":
+        return "false"
+    obs = {"uniform": lambda: f"(CUniform {gz(c[1])})", "stratified": lambda: f"(CStratified {gz(c[1])} {gz(c[2])})",
+           "semistrat": lambda: f"(CSemistrat {gz(c[1])} {gz(c[2])})", "poisson": lambda: f"(CPoisson {gz(c[1])} {gz(c[2])} {gz(c[3])})",
+           "error": lambda: "CError"}[c[0]]()
+    kind = {None: "None", "uniform": "(Some Uniform)", "stratified": "(Some Stratified)", "semistratified": "(Some Semistratified)"}[a["kind"]]
+    r = a["req"]
+    req = "RNone" if r is None else (f"(RInt {gz(r)})" if isinstance(r, int) else f"(RStrat {gz(r[0])} {gz(r[1])})")
+    sp = "true" if a["sparse"] else "false"
+    if a["side"] == "f":
+        model = f"(fn_config {sp} {gz(o['size'])} {gz(o['nnz'])} {kind} {req})"
+    else:
+        model = f"(gr_config {sp} {gz(o['size'])} {gz(o['nnz'])} {gz(a['max_iters'])} {kind} {req})"
+    crng = "true"
+    if c[0] != "error":
+        crng = f"Z.eqb (crng_len {model}) {gz(len(o['crng']))} && {'true' if o['crng'] == list(range(len(o['crng']))) else 'false'}"
+    return f"sconf_eqb {model} {obs} && {crng}"
